@@ -134,3 +134,16 @@ Proof. intros i o. unfold check_cmd, Cmd_holds. destruct (cmd_pre i) eqn:EPRE; [
     + apply andb_true_iff in HC. destruct HC as [HC H3]. split; [|apply unchangedb_spec; auto].
       apply orb_true_iff in HC. destruct HC as [HC|HC]; apply andb_true_iff in HC; destruct HC as [H1 H2]; [left|right];
         (split; [apply xerr_eqb_eq; auto|apply (C02Proof.decider_sound G WF AC); auto]). Qed.
+
+(* a history with a cycle (C15): every command is refused, whatever the target, nothing runs *)
+Theorem cyclic_refused : forall i G0,
+  has_colon (c_target i) = false -> intern0 (c_revs i) = Some G0 -> wf_refs G0 -> cyclic (all_down G0) ->
+  run_command i = CFail R.CmdRevision [] (c_rows i).
+Proof. intros i G0 HC HI WF CY. unfold run_command, resolve_cmd. rewrite HC, HI.
+  apply (load_iff G0 WF) in CY. destruct (Cycle.load G0) as [l|e]; [discriminate|]. reflexivity. Qed.
+
+(* and for an acyclic one the loader's check is passed, so the refusal above is exactly C15's *)
+Theorem acyclic_passes_loader : forall G0, wf_refs G0 -> ~ cyclic (all_down G0) -> exists l, Cycle.load G0 = Loaded l.
+Proof. intros G0 WF AC. destruct (Cycle.load G0) as [l|e] eqn:E; [eauto|]. exfalso.
+  pose proof (load_iff G0 WF) as [H1 _]. pose proof (load_total G0 WF) as [T1 T2].
+  apply AC, H1. rewrite E. destruct e; try reflexivity; congruence. Qed.
